@@ -275,6 +275,7 @@ class Ctx:
             start = 0
             resumes = 0
             slow = 0
+            skips = []
             results = []
             while True:
                 prog = os.path.join(self.scratch, "%s-%d.progress" % (label, shard))
@@ -285,6 +286,8 @@ class Ctx:
                 ee["VERIF_PROGRESS"] = prog
                 ee["VERIF_HASHFILE"] = hashf
                 cmd = base + ["--shard", "%d/%d" % (shard, nshards), "--start", str(start)]
+                for sk in skips:
+                    cmd += ["--skip", str(sk)]
                 try:
                     r = subprocess.run(cmd, stdout=subprocess.PIPE, stderr=subprocess.PIPE, env=ee,
                                        timeout=timeout)
@@ -301,6 +304,14 @@ class Ctx:
                         last = None
                 finished = '"final":1' in so
                 results.append(dict(cmd=cmd, rc=rc, out=so, err=se, timeout=to, last=last, finished=finished))
+                upto = None
+                for ln in reversed(so.splitlines()):
+                    if ln.startswith('{"t":"stats"'):
+                        try:
+                            upto = int(json.loads(ln).get("upto"))
+                        except (ValueError, TypeError):
+                            upto = None
+                        break
                 if finished and rc == 0:
                     break
                 if finished and rc != 0:
@@ -328,13 +339,24 @@ class Ctx:
                     if results[-1]["solo"]["again"]:
                         break
                     slow += 1
-                    if slow > 40:
+                    if slow > 40 or len(skips) >= 60:
                         results[-1]["gave_up"] = True     # a machine this loaded decides nothing
                         break
-                    start = last + 1
+                    # go on from the last checkpoint (the cases after it were lost with the process) minus the case
+                    # that was run alone
+                    skips.append(last)
+                    if upto is not None and start <= upto <= last:
+                        start = upto
+                    # else: no checkpoint was written - nothing of this process was counted, so the same range is
+                    # run again (without the slow case)
                     continue
                 resumes += 1
-                start = last + 1
+                if len(skips) < 60:
+                    skips.append(last)            # the crashing case is a violation already; do not lose its neighbours
+                    if upto is not None and start <= upto <= last:
+                        start = upto
+                else:
+                    start = last + 1
             return shard, results
 
         with concurrent.futures.ThreadPoolExecutor(max_workers=nshards) as ex:
